@@ -188,8 +188,7 @@ def run(ctx):
                        "update_cache} from 2-3 valid jobs with/without cache file, replayed and judged (check exact, never accepts a wrong state point in a fresh session, repair restores what the "
                        "cache knows and never touches documents/data); byte damage: truncation at every offset and 7 substitution classes at every offset of 4 state point files, classified by an "
                        "independent parse+hash; distinct = (config, op, outcome) and (damage kind, byte class, classification, cache) classes")
-    for c in configs(ctx):
-        F.run_config(ctx, PID, c)
+    F.run_configs(ctx, PID, configs(ctx))
     F.run_recorded(ctx, PID, "random-damage", 40 if ctx.quick else 2000, 30 if ctx.quick else 50, OPS + ["open_sp", "init", "open_iter", "remove"], projects=("P",))
     byte_level(ctx)
     ctx.cov["binding_selftest"] = F.selftest(ctx, PID)
